@@ -41,7 +41,31 @@ impl<'a> BerDecoder<'a> for SnmpOid<'a> {
 
     // Implement X.690 pp 8.19: Encoding of an object identifier value
     fn decode(i: &'a [u8], h: &BerHeader) -> SnmpResult<Self> {
-        Ok(SnmpOid(Cow::Borrowed(&i[..h.length])))
+        let data = &i[..h.length];
+        // 8.19.2: Each subidentifier is a series of octets, the last one
+        // has bit 8 clear, the leading one is not 0x80 (no padding).
+        // Subidentifiers are limited to 32 bits (RFC 2578 pp 3.5).
+        // Refuse anything else here: a walk re-sends these octets as is.
+        let mut acc = 0u64;
+        let mut leading = true;
+        for &c in data.iter() {
+            if leading && c == 0x80 {
+                return Err(SnmpError::InvalidData);
+            }
+            acc = (acc << 7) | ((c & 0x7f) as u64);
+            if acc > u32::MAX as u64 {
+                return Err(SnmpError::InvalidData);
+            }
+            leading = c & 0x80 == 0;
+            if leading {
+                acc = 0;
+            }
+        }
+        if !leading {
+            // Unterminated subidentifier
+            return Err(SnmpError::InvalidData);
+        }
+        Ok(SnmpOid(Cow::Borrowed(data)))
     }
 }
 
